@@ -251,6 +251,8 @@ em!(U_S3, 7, 9);
 em!(U_S4, 9, 11);
 em!(U_PS, 12, 14);
 em!(U_E1, 20, 22);
+em!(U_E5, 20, 22);
+em!(X_U8P, 10, 12);
 em!(U_E2, 7, 9);
 em!(U_E3, 10, 12);
 em!(U_E4, 13, 15);
@@ -273,6 +275,7 @@ asg!(U_S1, U_S1_a, 10, 12);
 asg!(U_S2, U_S2_a, 12, 14);
 asg!(U_S3, U_S3_a, 6, 8);
 asg!(U_E1, U_E1_a, 16, 18);
+asg!(U_E5, U_E5_a, 16, 18);
 asg!(U_E2, U_E2_a, 6, 8);
 asg!(U_E3, U_E3_a, 10, 12);
 asg!(U_E4, U_E4_a, 12, 14);
